@@ -94,6 +94,19 @@ type State struct {
 	pub     map[int]*Val      // content of a local as last copied into the heap (nil entry: not current)
 	lastRes map[string]*Val   // ghost: callee name -> result of the most recent call on this path
 	called  map[string]string // ghost: callee name -> Bool term "a call to it was executed on the way here"
+	ncalls  map[string]string // ghost: callee name -> Int term, the number of calls to it executed on the way here
+}
+
+// countCall advances the ghost counter of calls to name
+func (s *State) countCall(name string) {
+	if s.ncalls == nil {
+		s.ncalls = map[string]string{}
+	}
+	prev, ok := s.ncalls[name]
+	if !ok {
+		prev = "0"
+	}
+	s.ncalls[name] = "(+ " + prev + " 1)"
 }
 
 func (s *State) clone() *State {
@@ -108,6 +121,10 @@ func (s *State) clone() *State {
 	n.called = make(map[string]string, len(s.called))
 	for k, v := range s.called {
 		n.called[k] = v
+	}
+	n.ncalls = make(map[string]string, len(s.ncalls))
+	for k, v := range s.ncalls {
+		n.ncalls[k] = v
 	}
 	n.pub = make(map[int]*Val, len(s.pub))
 	for k, v := range s.pub {
